@@ -95,6 +95,16 @@ Definition apmw (f : mw) (v : val) (sp : span) (sl : span) (ust : N) (ctx : val)
 (* the number a context value denotes, for repeated().configure(|cfg, ctx| cfg.exactly(ctx)) *)
 Definition val_count (v : val) : nat := length (val_toks v).
 
+(* the items of a container output, for a.into_iter() (the harness converts a's universal output to a Vec the same way) *)
+Definition val_items (v : val) : list val :=
+  match v with
+  | VList l => l
+  | VOpt (Some x) => [x]
+  | VOpt None => []
+  | VUnit => []
+  | _ => [v]
+  end.
+
 (* collect containers *)
 Inductive ckind := CVec | CCount | CUnit.
 
@@ -157,6 +167,8 @@ Inductive G :=
 | WithState (k : N) (a : G)         (* a.with_state(HState::seeded(k)): a runs on a fresh copy of that state, the outer state is untouched *)
 | Skip (n : nat)                    (* custom(|inp| { for _ in 0..n { inp.skip() } Ok(()) }): InputRef::skip, n times *)
 | ExtWrap (a : G)                   (* Ext(P) with ExtParser::parse = inp.parse(&a) and a separate ExtParser::check = inp.check(&a) *)
+| Padded (ws : list tok) (a : G)    (* a.padded(): InputRef::skip_while(is_whitespace) before and after a; ws = the whitespace characters
+                                       (text::Char::is_whitespace restricted to the alphabet in use); skip_while records no error *)
 with pop :=
 | PInfix (rassoc : bool) (bp : nat) (og : G) (k : nat)
 | PPrefix (bp : nat) (og : G) (k : nat)
@@ -168,7 +180,8 @@ with IT :=
 | IMap (f : fn1) (i : IT)
 | IMapWith (f : mw) (i : IT)
 | IOrNot (a : G)
-| IRepCfg (a : G) (lo : nat) (hi : option nat) (ck : nat).
+| IRepCfg (a : G) (lo : nat) (hi : option nat) (ck : nat)
+| IIntoIter (a : G).                (* a.into_iter(): a's output (a container) is produced by make_iter, `next` hands out its items *)
     (* a.repeated().at_least(lo).at_most(hi).configure(|cfg, ctx| ..) with n = count ctx and
        ck = 0: cfg.exactly(n); 1: cfg.at_least(n); 2: cfg.at_most(n); otherwise cfg unchanged *)
 
